@@ -64,7 +64,15 @@ fn run_pair(ctx: &numbat::Context, units: &Units, out: &mut Out, p: &Pair, throu
     let (fa, fb) = (units.oracle_factor(&p.a.factors), units.oracle_factor(&p.b.factors));
     let close = |x: f64, y: f64| x == y || (x - y).abs() <= 16.0 * f64::EPSILON * x.abs().max(y.abs()) + 16.0 * 5e-324;
     let near = close(va * fa, vb * fb) || close(va, vb * (fb / fa)) || close(vb, va * (fa / fb));
-    let class = if near { "cmp-asym-rounding" } else { "cmp-asym" };
+    // Rounding can only explain a disagreement *between the two operand orders* (each order converts the other
+    // operand) of finite values in different units that are equal up to rounding.  Within one order `==` and the
+    // ordering use the same conversion, so they can only disagree through rounding when an operand is zero (the
+    // zero-on-the-left path converts the left operand instead).
+    let finite = va.is_finite() && vb.is_finite();
+    let differ = show_unit(&p.a.factors) != show_unit(&p.b.factors);
+    // (overflow of the one-sided conversion to infinity is rounding too, so infinities are allowed here)
+    let class = if near && differ { "cmp-asym-rounding" } else { "cmp-asym" };
+    let class_same_order = if near && finite && differ && (va == 0.0 || vb == 0.0) { "cmp-asym-rounding" } else { "cmp-asym" };
     out.case(&text, show_unit(&p.a.factors) != show_unit(&p.b.factors));
     out.count(if nan { "pairs_nan" } else if near { "pairs_equal_up_to_rounding" } else { "pairs_distinct_values" });
 
@@ -74,7 +82,8 @@ fn run_pair(ctx: &numbat::Context, units: &Units, out: &mut Out, p: &Pair, throu
     let eba = op(ctx, out, "eq", &p.b, &p.a);
     out.count(&format!("cmp_{}", cab.split(' ').next().unwrap_or("?")));
     let mut fail = |kind: &str, what: String| {
-        out.oracle_fail(&format!("{}:{}:{}", class, kind, text), &text, &what);
+        let c = if kind == "eq-vs-cmp" || kind == "trichotomy" || kind == "nan" || kind == "panic" || kind == "error" { class_same_order } else { class };
+        out.oracle_fail(&format!("{}:{}:{}", c, kind, text), &text, &what);
     };
     for a in [&cab, &cba, &eab, &eba] {
         if a.starts_with("panic") {
@@ -113,7 +122,8 @@ fn run_pair(ctx: &numbat::Context, units: &Units, out: &mut Out, p: &Pair, throu
         }
         out.count("vm_pairs");
         let mut fail = |kind: &str, what: String| {
-            out.oracle_fail(&format!("{}:vm-{}:{}", class, kind, text), &text, &what);
+            let c = if kind == "trichotomy" || kind == "nan" || kind == "ne" { class_same_order } else { class };
+            out.oracle_fail(&format!("{}:vm-{}:{}", c, kind, text), &text, &what);
         };
         if r[&("lt", 0)] != r[&("gt", 1)] || r[&("gt", 0)] != r[&("lt", 1)] {
             fail("lt-gt", format!("a<b {} b>a {} ; a>b {} b<a {}", r[&("lt", 0)], r[&("gt", 1)], r[&("gt", 0)], r[&("lt", 1)]));
@@ -207,12 +217,24 @@ fn main() {
         let d = *rng.pick(&multi);
         let rows = &units.by_dim[d];
         let through_vm = i % 3 == 0;
-        let (ua, ub) = if through_vm {
+        // both operands carry the same exponent (areas, volumes, inverse units, roots), so that the dimension agrees
+        let (en, ed) = *rng.pick(&[(1i128, 1i128), (1, 1), (1, 1), (2, 1), (3, 1), (-1, 1), (-2, 1), (1, 2)]);
+        let (mut ua, mut ub) = if through_vm {
             (vec![units.factor(*rng.pick(rows), (false, 0), 1, 1)], vec![units.factor(*rng.pick(rows), (false, 0), 1, 1)])
         } else {
             (units.random_simple(&mut rng, rows), units.random_simple(&mut rng, rows))
         };
-        let va = match rng.below(10) { 0 => f64::NAN, 1 => 0.0, 2 => 40.5, _ => random_magnitude(&mut rng) };
+        if i % 2 == 1 {
+            // same unit on both sides, possibly with different prefixes: the shape a "fast path" would special-case
+            ub[0].unit = ua[0].unit.clone();
+            if through_vm { ub[0].prefix_exp = 0; ub[0].binary = false; } else {
+                let ps = units.prefixes(units.index[&ua[0].unit]);
+                let p = *rng.pick(&ps);
+                ub[0].binary = p.0; ub[0].prefix_exp = p.1;
+            }
+        }
+        for f in ua.iter_mut().chain(ub.iter_mut()) { f.num = en; f.den = ed; }
+        let va = match rng.below(12) { 0 => f64::NAN, 1 => 0.0, 2 => 40.5, 3 => f64::INFINITY, 4 => f64::NEG_INFINITY, _ => random_magnitude(&mut rng) };
         let a = q(va.to_bits(), ua);
         let vb = gen_b(&mut rng, &a, &ub);
         run_pair(&ctx, &units, &mut out, &Pair { a, b: q(vb, ub) }, through_vm);
